@@ -368,8 +368,11 @@ def rule_strict(ctx):
                 ctx.undecide('R4', 'unexpected outcome %s %s' % (p.kind, T.show(v)))
                 ok = False
                 continue
-            for ka, kb in itertools.product(range(N), range(N)):
+            stepvals = {'none': [None], 'pos': [1, 2], 'neg': [-1, -2]}[stepkind]
+            for ka, kb, sv in itertools.product(range(N), range(N), stepvals):
                 atoms = {('attr', VALUES, 'size'): N, ('call', ('name', 'len'), (VALUES,), ()): N}
+                if sv is not None:
+                    atoms[STEP] = sv
                 for which, k in (('start', ka), ('stop', kb)):
                     for c in locs.get(which, ()):
                         atoms[c] = k
@@ -378,6 +381,9 @@ def rule_strict(ctx):
                     if not any(c in atoms for c in T.calls_in(a, 'locate_one')):
                         continue
                     r = bool_eval(a, atoms)
+                    if r is None and a[0] not in ('cmp', 'boolop', 'unop'):
+                        iv = int_eval(a, atoms)          # truthiness of an integer position (`if istop:`)
+                        r = None if iv is None else bool(iv)
                     if r is None:
                         ctx.undecide('R4', '%s: guard %s not evaluable' % (inst, T.show(a)[:80]))
                         ok = False
